@@ -457,6 +457,12 @@ Definition measure (cf : cfg) (r : R) (avail : Z) : res (Z * Z) :=
   | None => Ok (mget (den cf r ro0) avail)
   end.
 
+(* Measurement.get(console, r, max_width=None): an omitted max_width means the console width
+   (`_max_width = console.width if max_width is None else max_width`, pinned as gen/MeasureFacts.GET_NONE_IS_CONSOLE_WIDTH;
+   the clamp `.with_maximum(_max_width)` uses that RESOLVED width: GET_NORMALIZE_WITH_MAXIMUM) *)
+Definition measure_opt (cf : cfg) (r : R) (max_width : option Z) : res (Z * Z) :=
+  measure cf r (match max_width with None => cW cf | Some w => w end).
+
 (* ---------------------------------------------------------------- structural minimum (DESIGN section 9) *)
 Definition has_wide (s : str) : bool := existsb (fun c => char_size c =? 2) s.
 Definition txt_min (s : str) : Z := if has_wide s then 2 else 1.
